@@ -69,6 +69,10 @@ pub struct ConcCfg {
     /// run the ownership monitor at quiescent points
     pub ownership: bool,
     pub step_budget_base: u64,
+    /// keep request payloads so that crash images can be derived from the log (crash.rs)
+    pub keep_data: bool,
+    /// at every quiescent point run flush_meta + fsync_range sequentially and record a sync point
+    pub sync_after_batch: bool,
 }
 
 impl Default for ConcCfg {
@@ -79,6 +83,8 @@ impl Default for ConcCfg {
             need_flush_check: false,
             ownership: false,
             step_budget_base: 200_000,
+            keep_data: false,
+            sync_after_batch: false,
         }
     }
 }
@@ -87,6 +93,22 @@ pub struct ConcRun {
     pub violation: Option<Violation>,
     pub inconclusive: Option<String>,
     pub stats: ConcStats,
+    /// the world after the run (request log incl. payloads when cfg.keep_data)
+    pub world: World,
+    /// the model as adopted at the last quiescent point
+    pub model: Option<Model>,
+    pub trace: ConcTrace,
+}
+
+/// What the crash engine needs from a concurrent run
+#[derive(Clone, Debug, Default)]
+pub struct ConcTrace {
+    /// (event, guest content) after flush_meta + fsync_range both returned Ok at a quiescent point
+    pub sync_points: Vec<(u64, Vec<u8>)>,
+    /// every modifying call with the event at which its batch started (a lower bound of its invocation)
+    pub calls: Vec<(u64, Op)>,
+    /// (first event, last event, batch index)
+    pub batch_events: Vec<(u64, u64, usize)>,
 }
 
 fn vid(b: &[u8]) -> u64 {
@@ -165,12 +187,16 @@ fn linearizable(evs: &[BEv], init: u64, zero: u64) -> bool {
 }
 
 pub fn run_conc(case: &ConcCase, cfg: &ConcCfg) -> ConcRun {
+    let world = World::new();
+    world.0.borrow_mut().keep_data = cfg.keep_data;
     let mut run = ConcRun {
         violation: None,
         inconclusive: None,
         stats: ConcStats::default(),
+        world: world.clone(),
+        model: None,
+        trace: ConcTrace::default(),
     };
-    let world = World::new();
     let layers = match build_layers(&case.layers) {
         Ok(l) => l,
         Err(v) => {
@@ -186,9 +212,12 @@ pub fn run_conc(case: &ConcCase, cfg: &ConcCfg) -> ConcRun {
         world.add_file(&layer_name(i), b.clone());
     }
     let mut model = Model::new(&case.layers, &layers.truths);
-    if let Err(v) = run_conc_inner(case, cfg, &world, &mut model, &mut run.stats) {
+    let mut trace = ConcTrace::default();
+    if let Err(v) = run_conc_inner(case, cfg, &world, &mut model, &mut run.stats, &mut trace) {
         run.violation = Some(v);
     }
+    run.trace = trace;
+    run.model = Some(model);
     if world.0.borrow().too_big && run.violation.is_some() {
         run.inconclusive = Some("simulated file exceeded the harness size cap".into());
         run.violation = None;
@@ -247,7 +276,7 @@ fn op_range(op: &Op) -> Option<(u64, u64)> {
     }
 }
 
-fn run_conc_inner(case: &ConcCase, cfg: &ConcCfg, world: &World, model: &mut Model, stats: &mut ConcStats) -> Result<(), Violation> {
+fn run_conc_inner(case: &ConcCase, cfg: &ConcCfg, world: &World, model: &mut Model, stats: &mut ConcStats, trace: &mut ConcTrace) -> Result<(), Violation> {
     let dev = match open_chain(world, 0, &case.params, false) {
         Ok(Ok(d)) => d,
         Ok(Err(e)) => return Err(Violation::new(Rule::ApiErr, format!("initial open failed: {e}")).tag("open")),
@@ -272,6 +301,13 @@ fn run_conc_inner(case: &ConcCase, cfg: &ConcCfg, world: &World, model: &mut Mod
         if batch.len() > 1 && batch.iter().flatten().any(|o| matches!(o, Op::Discard { .. })) {
             seen_conc_discard = true;
         }
+        let batch_start = world.now();
+        for op in batch.iter().flatten() {
+            if op.modifies() {
+                trace.calls.push((batch_start, op.clone()));
+            }
+        }
+        trace.batch_events.push((batch_start, u64::MAX, bi));
         let hist: RefCell<Vec<CallRec>> = RefCell::new(Vec::new());
         let mut tasks: Vec<Option<exec::Task>> = Vec::new();
         let ncalls: usize = batch.iter().map(|t| t.len()).sum();
@@ -602,6 +638,20 @@ fn run_conc_inner(case: &ConcCase, cfg: &ConcCfg, world: &World, model: &mut Mod
         }
         model.disk[..readable].copy_from_slice(&got[..readable]);
         stats.batches_done = bi + 1;
+        if let Some(b) = trace.batch_events.last_mut() {
+            b.1 = world.now();
+        }
+        if cfg.sync_after_batch {
+            let f = drive(world, &mut seq_sched, dev.flush_meta());
+            let ok = match f {
+                Driven::Done(Ok(())) => matches!(drive(world, &mut seq_sched, dev.fsync_range(0, vsize as usize)), Driven::Done(Ok(()))),
+                _ => false,
+            };
+            if !ok {
+                return Err(tagged(Violation::new(Rule::ApiErr, format!("flush_meta + fsync_range at the quiescent point after batch {bi} failed")).at(bi).tag("quiescent")));
+            }
+            trace.sync_points.push((world.now(), model.disk.clone()));
+        }
 
         if cfg.need_flush_check {
             if !dev.need_flush_meta() {
@@ -856,7 +906,12 @@ pub fn cache_capacity(c: &ConcCase) -> (usize, usize, usize, usize) {
 /// Exclusion by construction: remove the shapes that trigger active known findings.
 pub fn apply_exclusions(c: &mut ConcCase, excl: &crate::runner::Exclusions) {
     let active = |root: &str| excl.active.iter().any(|f| f.id.ends_with(root));
-    if active(K_DISCARD_RACE) {
+    remove_shapes(c, active(K_DISCARD_RACE), active(K_EVICTION_RACE));
+}
+
+/// Remove the shapes of the two concurrency known findings from a case (counted in `excluded`)
+pub fn remove_shapes(c: &mut ConcCase, discard_race: bool, eviction_race: bool) {
+    if discard_race {
         // a discard never runs concurrently with another call: it gets a batch of its own
         let mut out: Vec<Vec<Vec<Op>>> = Vec::new();
         let mut changed = false;
@@ -886,7 +941,7 @@ pub fn apply_exclusions(c: &mut ConcCase, excl: &crate::runner::Exclusions) {
             c.excluded.push(K_DISCARD_RACE.to_string());
         }
     }
-    if active(K_EVICTION_RACE) {
+    if eviction_race {
         // caches large enough that no slice is ever evicted while tasks run concurrently
         let cb = c.layers[0].cluster_bits();
         let def_bits = std::cmp::min(12, cb);
